@@ -320,14 +320,8 @@ func (wd *world) pickAnswer(force string) answer {
 	}
 	kind := force
 	if kind == "" {
-		kinds := []string{"fresh", "fresh", "fresh", "stale", "lower", "equal", "expired", "expired_edge", "fail", "hang", "soft", "soft_low", "nil", "future", "between"}
+		kinds := []string{"fresh", "fresh", "fresh", "stale", "lower", "equal", "expired", "expired_edge", "fail", "hang", "soft", "soft_low", "nil", "future", "between", "next", "soft_next"}
 		kind = kinds[r.Intn(len(kinds))]
-	}
-	if wd.cfg.serve && (kind == "soft" || kind == "soft_low" || kind == "nil") {
-		// a soft answer makes networkHead call setLocalHead twice while the sync loop it
-		// triggered may be running: that race (stale pending / failed sync) is outside C19
-		// and outside the model's granularity; cases whose getter serves ranges avoid it
-		kind = "fresh"
 	}
 	mk := func(k ansKind, h *vhdr.Header) answer { return answer{kind: k, h: h, name: kind} }
 	clampH := func(h uint64) uint64 {
@@ -353,6 +347,18 @@ func (wd *world) pickAnswer(force string) answer {
 			return mk(aOk, wd.u.at(estH+1+uint64(r.Intn(int(nowH-estH-1)))))
 		}
 		return mk(aOk, wd.u.at(clampH(nowH)))
+	case "next", "soft_next":
+		// the header right above the subjective head: adjacent to the store head when nothing is
+		// pending, so setLocalHead stores it and every further setLocalHead of the same call or of
+		// the callers sharing the flight re-delivers the store head (a no-op since /repo 80904e6)
+		k := aOk
+		if kind == "soft_next" {
+			k = aSoft
+		}
+		if estH != 0 {
+			return mk(k, wd.u.at(estH+1))
+		}
+		return mk(k, wd.u.at(clampH(nowH)))
 	case "lower":
 		if estH > wd.u.first {
 			return mk(aOk, wd.u.at(clampH(estH-1-uint64(r.Intn(3)))))
@@ -477,6 +483,10 @@ func (wd *world) opHead(force string) {
 		return "trusted"
 	}()))
 	wd.kinds["head:"+a.name+":"+strings.Fields(strings.Trim(res, "()"))[0]] = true
+	if a.kind == aSoft && a.h != nil && out.err == nil && out.h != nil && out.h.Height() == a.h.Height() && wd.storeHeight() == a.h.Height() && len(calls) == 1 && calls[0].trusted != nil && a.h.Height() == calls[0].trusted.Height()+1 {
+		// incomingNetworkHead stored the header (adjacent), networkHead's own setLocalHead delivered it again
+		wd.w.Count("store_head_redelivered", "one call, soft answer")
+	}
 }
 
 func (wd *world) opTick(force string) {
@@ -649,6 +659,9 @@ func (wd *world) opConc(force string) {
 	wd.w.Count("conc_answer", a.name)
 	wd.w.Count("conc_calls", fmt.Sprintf("n=%d calls=%d", n, len(calls)))
 	wd.kinds[fmt.Sprintf("conc:%s:%v:%d", a.name, w, len(calls))] = true
+	if a.kind == aOk && a.h != nil && !w && len(calls) == 1 && calls[0].trusted != nil && a.h.Height() == calls[0].trusted.Height()+1 && wd.storeHeight() == a.h.Height() {
+		wd.w.Count("store_head_redelivered", fmt.Sprintf("group of %d callers", n))
+	}
 }
 
 // opSched: a scripted interleaving of callers, gossip heads, clock advances and
@@ -1031,6 +1044,10 @@ func TestC19(t *testing.T) {
 		{"head:fresh", "gossip:next", "gossip:ahead", "head:lower", "tick:blocks", "head:between", "gossip:lower", "head:fresh"},
 		// expiry while running, then concurrent re-initialisation
 		{"head:fresh", "tick:long", "tick:long", "conc:fresh", "conc:expired"},
+		// the store head is delivered again: twice by one call (soft answer that verifies), by every
+		// caller of a group, and by a later soft answer equal to the head
+		{"head:fresh", "tick:blocks", "head:soft_next", "head:fail", "tick:blocks", "conc:next", "head:fail", "tick:blocks", "head:soft_low", "head:equal"},
+		{"head:fresh", "tick:blocks", "head:soft_next", "tick:blocks", "head:next", "gossip:same", "head:fail"},
 		// callers, gossip and answers interleaved while a flight is open
 		{"head:fresh", "tick:blocks", "sched:between", "head:fail", "tick:blocks", "sched:lower", "head:fail", "tick:blocks", "sched:", "head:fail"},
 	}
@@ -1039,7 +1056,7 @@ func TestC19(t *testing.T) {
 		for si, sc := range scripts {
 			c := cfgs(n)
 			c.initial = init
-			c.serve = si%2 == 0
+			c.serve = si%2 == 0 || si == 7 // 7: sequential re-delivery with a synced store
 			for _, o := range sc {
 				if strings.HasPrefix(o, "conc") || strings.HasPrefix(o, "sched") {
 					c.serve = false
